@@ -107,6 +107,19 @@ CHECKS = {
              'the 400-class MediaMalformedError (and a 400 response when unhandled), on WSGI and ASGI.',
         note='wsgi.input returns a requested read in full (buffered semantics) in this check; documents exclude lone '
              'surrogates, NaN/Inf and a top-level null; a truncated body that is itself a valid document may parse.'),
+    'C14': dict(
+        level='exploration', ref='DESIGN.md section 4 (C14)',
+        technique=TECH + 'seeded search over source chunkings (short reads, empty/1-byte chunks, await points resolved by '
+                  'the simulated loop), chunk sizes, delimiters and operation histories incl. nested delimited readers; '
+                  'flat-cursor reference model compared operation by operation plus conservation',
+        text='Seeded exploration: direct instances of the sync and the async BufferedReader over a source whose per-call '
+             'behaviour (short read / exact / EOF; async chunk sizes with an await before each chunk, resumed by an '
+             'environment action) is drawn by the simulator; histories of <=10 operations generated from the cursor state, '
+             'nested delimit() children followed by the parent resync protocol. Oracle: a flat cursor over data[:max_len] '
+             '(per-op equality incl. exception class, conservation, over-read probe, tell/eof), a final drain, hang '
+             'detection at quiescence and a deterministic livelock guard (PEP 669 jump counter).',
+        note='Sizes are None/-1/>=0; a history ends at the first DelimiterError; nested readers follow the protocol the '
+             'code base itself uses; eof-false-at-end is flagged only once an operation had to look past the end.'),
 }
 
 NOT_YET = {p: 'claimed in DESIGN.md; check under construction in this round (not yet registered)' for p in
